@@ -481,6 +481,39 @@ def box(N_max, tier, classes=None, passes_max=None, costs=None):
     return out
 
 
+def box_deep(N_lo, N_hi, tier):
+    """Second layer of the box: larger n (N_lo < n <= N_hi) with a thinner but
+    still exhaustive-in-(n, s) parameter set -- every total unit count, three
+    RAM/DISK splits, both trajectories; Mixed every s; the Revolve family with
+    1..3 RAM units and three cost vectors; TwoLevel with long periods."""
+    quick = tier == "quick"
+    out = []
+    cvs = [COSTS_ALL[0], COSTS_ALL[7], COSTS_ALL[11]]
+    for n in range(N_lo + 1, N_hi + 1):
+        for s in range(1, n):
+            splits = sorted({(s, 0), (0, s), (s // 2, s - s // 2)})
+            for ram, disk in splits:
+                for traj in ("maximum", "revolve"):
+                    out.append(Config("Multistage", (ram, disk, traj), n))
+            out.append(Config("Mixed", (s, "DISK" if s % 2 else "RAM"), n))
+        for period in (7, 11, 16, 25):
+            if period > n + 3:
+                continue
+            for bs in (1, 3):
+                for traj in ("maximum", "revolve"):
+                    out.append(Config("TwoLevel", (period, bs, "RAM", traj),
+                                      n, 2))
+        for ram in (1, 2, 3):
+            for cv in cvs:
+                for c in ("Revolve", "DiskRevolve", "PeriodicDiskRevolve"):
+                    out.append(Config(c, (ram,) + tuple(cv), n))
+                for disk in ((1, 3) if quick else (0, 1, 2, 3)):
+                    out.append(Config("HRevolve", (ram, disk) + tuple(cv), n))
+        for c in ("SingleMemory", "SingleDiskCopy", "SingleDiskMove"):
+            out.append(Config(c, (), n, 2 if c != "SingleDiskMove" else 1))
+    return out
+
+
 def group_key(cfg):
     """Configurations that differ only in a parameter a careless memo key
     could omit (cost vector, RAM/DISK split, storage, trajectory, passes) form
